@@ -45,7 +45,8 @@ enum LexingMode {
 }
 
 pub struct Lexer {
-    input: Vec<String>,
+    /// The shell words of the query, as characters (a character is looked up by its index).
+    input: Vec<Vec<char>>,
     input_index: usize,
     char_index: isize,
     before_from: bool,
@@ -61,7 +62,7 @@ pub struct Lexer {
 impl Lexer {
     pub fn new(input: Vec<String>) -> Lexer {
         Lexer {
-            input,
+            input: input.iter().map(|part| part.chars().collect()).collect(),
             input_index: 0,
             char_index: 0,
             before_from: true,
@@ -76,6 +77,17 @@ impl Lexer {
     }
 
     pub fn next_lexem(&mut self) -> Option<Lexem> {
+        // `asc` says nothing: the words after it are read in a loop, however many there are
+        loop {
+            let (lexem, skipped) = self.scan_lexem();
+            if !skipped {
+                return lexem;
+            }
+        }
+    }
+
+    fn scan_lexem(&mut self) -> (Option<Lexem>, bool) {
+        let mut skipped = false;
         let mut s = String::new();
         let mut mode = LexingMode::Undefined;
 
@@ -90,7 +102,7 @@ impl Lexer {
             if self.char_index == -1 {
                 c = ' ';
             } else {
-                let input_char = input_part.chars().nth(self.char_index as usize);
+                let input_char = input_part.get(self.char_index as usize).copied();
                 if input_char.is_none() {
                     self.input_index += 1;
                     self.char_index = -1;
@@ -141,13 +153,22 @@ impl Lexer {
                         && looks_like_date(&s)
                         && (1..=2).contains(
                             &input_part
-                                .chars()
+                                .iter()
                                 .skip(self.char_index as usize + 1)
                                 .take_while(|c| c.is_ascii_digit())
                                 .count(),
                         );
                     if !is_date {
-                        if self.is_arithmetic_op_char(c) {
+                        // inside a word that reads as an expression so far (`2*3`, `size*2`) an operator
+                        // character is an operator, also right after a comparison (`size = 2*3`)
+                        if self.is_arithmetic_op_char(c)
+                            || (self.after_operator && matches!(c, '*' | '/' | '%') && {
+                                self.after_operator = false;
+                                let is_operator = self.is_arithmetic_op_char(c);
+                                self.after_operator = true;
+                                is_operator
+                            })
+                        {
                             let maybe_expr = looks_like_expression(&s);
                             if maybe_expr {
                                 break;
@@ -158,7 +179,7 @@ impl Lexer {
                             && (c == ' ' || c == ',' || is_paren_char(c) || self.is_op_char(c)) {
                             break;
                         } else if c == ','
-                            && input_part.chars().nth(self.char_index as usize + 1).is_none() {
+                            && input_part.get(self.char_index as usize + 1).is_none() {
                             // a comma that ends a shell word separates this root from the next one
                             break;
                         }
@@ -244,7 +265,10 @@ impl Lexer {
                     Some(Lexem::Order)
                 }
                 "by" => Some(Lexem::By),
-                "asc" => self.next_lexem(),
+                "asc" => {
+                    skipped = true;
+                    None
+                }
                 "desc" => Some(Lexem::DescendingOrder),
                 "limit" => Some(Lexem::Limit),
                 "into" => Some(Lexem::Into),
@@ -274,7 +298,7 @@ impl Lexer {
             || (matches!(lexem, Some(Lexem::Comma)) && self.in_roots);
         self.after_operator = matches!(lexem, Some(Lexem::Operator(_)));
 
-        lexem
+        (lexem, skipped)
     }
 
     fn is_arithmetic_op_char(&self, c: char) -> bool {
